@@ -7,7 +7,7 @@
 From Coq Require Import Reals List Lra.
 From AhrsLib Require Import Base Rot.
 From AhrsGen Require Import C04gen_R.
-From AhrsProps Require Import C04_tac C04_matrix C04_eigen C04_closed.
+From AhrsProps Require Import C04_tac C04_matrix C04_eigen C04_closed C04_decl.
 Import ListNotations.
 Open Scope R_scope.
 
@@ -26,6 +26,19 @@ Proof.
   exact (triad_ctor_exact w x y z sa sm cd sd Hq (conj Hd Hc) Ha Hm).
 Qed.
 Print Assumptions C04_triad_exact.
+
+(* TRIAD with a magnetic reference that has an East component (declination (ce,se): v2 = (cd ce, cd se, sd)), and the
+   second estimate of ONE object whose v1, v2 were re-assigned (ENU-style pair first, then this pair): A = Rspec(q)^T *)
+Theorem C04_triad_declination_and_reuse_exact : forall w x y z sa sm cd sd ce se,
+  w*w + x*x + y*y + z*z = 1 -> cd*cd + sd*sd = 1 -> 0 < cd -> ce*ce + se*se = 1 -> 0 < sa -> 0 < sm ->
+  C04_triad_decl_R w x y z sa sm cd sd ce se = Val (mtr3 (Rspec [w;x;y;z])) /\
+  C04_triad_reuse_R w x y z sa sm cd sd ce se = Val (mtr3 (Rspec [w;x;y;z])).
+Proof.
+  intros w x y z sa sm cd sd ce se Hq Hd Hc He Ha Hm.
+  split; [exact (triad_decl_exact w x y z sa sm cd sd ce se Hq (conj Hd Hc) He Ha Hm)|].
+  exact (triad_reuse_exact w x y z sa sm cd sd ce se Hq (conj Hd Hc) He Ha Hm).
+Qed.
+Print Assumptions C04_triad_declination_and_reuse_exact.
 
 (* ecompass, matrix form, both frames: the rotation matrix of q itself *)
 Theorem C04_ecompass_exact : forall w x y z sa sm cd sd,
@@ -74,6 +87,20 @@ Theorem C04_flae_W_eigen : forall w x y z sa sm cd sd,
             mvec4 W [w;x;y;z] = [w;x;y;z].
 Proof. exact flae_W_eigen. Qed.
 Print Assumptions C04_flae_W_eigen.
+
+(* the same two eigen-equations with a magnetic reference turned by a declination *)
+Theorem C04_davenport_flae_declination_eigen : forall w x y z sa sm cd sd ce se,
+  w*w + x*x + y*y + z*z = 1 -> cd*cd + sd*sd = 1 -> ce*ce + se*se = 1 -> 0 < sa -> 0 < sm ->
+  (exists K, C04_davenport_K_decl_R w x y z sa sm cd sd ce se = Val K /\ length K = 16%nat /\ mtr4 K = K /\
+             mvec4 K [w;x;y;z] = qscale (sa + sm) [w;x;y;z]) /\
+  (exists W, C04_flae_W_decl_R w x y z sa sm cd sd ce se = Val W /\ length W = 16%nat /\ mtr4 W = W /\
+             mvec4 W [w;x;y;z] = [w;x;y;z]).
+Proof.
+  intros w x y z sa sm cd sd ce se Hq Hd He Ha Hm.
+  split; [exact (davenport_K_decl_eigen w x y z sa sm cd sd ce se Hq Hd He)|].
+  exact (flae_W_decl_eigen w x y z sa sm cd sd ce se Hq Hd He Ha Hm).
+Qed.
+Print Assumptions C04_davenport_flae_declination_eigen.
 
 (* relative to the contract of the symmetric eigen-solver.  PARTIAL: that the eigenvalue exhibited above is the
    largest one and simple is a premise here (explored numerically by the search oracle), not proved. *)
